@@ -345,6 +345,48 @@ def case_setup_stuck(seed, idx, res):
                                       key="silent-cut:setup-stuck" + ("-nested" if nested else ""), index=idx, mode="setup-stuck", nested=nested, warnings=ws[:3]))
 
 
+def case_invariant_target_stuck(seed, idx, res):
+    """a target call of an invariant test stops on an unsupported opcode — in the target function's own frame or in a nested call, before
+    or after it has written the state that breaks the invariant: the post-state is lost, so the run must say that it is incomplete"""
+    import invgen
+
+    rng = random.Random(f"c10-{seed}-invstuck-{idx}")
+    nested = idx % 2 == 1
+    bad_op = rng.choice([0xFF, 0xFF, 0x49, 0x4A])  # selfdestruct / blobhash / blobbasefee: not supported
+    stuck_body = [7, 0, "SSTORE"] + ([0, bytes([0xFF])] if bad_op == 0xFF else ([0, bytes([0x49]), "POP"] if bad_op == 0x49 else [bytes([0x4A]), "POP"])) + ["STOP"]
+    fns = [A.Fn("poke", [], stuck_body), A.Fn("n", [], [0, "SLOAD", 0, "MSTORE", 32, 0, "RETURN"], mutability="view", outputs=[U])]
+    if nested:
+        # relay() calls this.poke()
+        fns.append(A.Fn("relay", [], [("push", int.from_bytes(fns[0].selector, "big") << 224, 32), 0x300, "MSTORE", 0, 0, 4, 0x300, 0, "ADDRESS", 0xFFFF, "CALL", "POP", "STOP"]))
+    target = A.ContractSpec("K", fns, filename="K.sol")
+    init = target.creation()
+    st = []
+    padded = init + bytes((-len(init)) % 32)
+    for i in range(0, len(padded), 32):
+        st += [("push", int.from_bytes(padded[i : i + 32], "big"), 32), 0x400 + i, "MSTORE"]
+    setup = A.Fn("setUp", [], st + [len(init), 0x400, 0, "CREATE", 0, "SSTORE", "STOP"])
+    view = A.call_raw(invgen.TARGET0, [f for f in fns if f.name == "n"][0].selector, ret=0x500) + ["POP", 0x500, "MLOAD"]
+    inv = A.Fn("invariant_n", [], view + [7, "EQ", "@bad", "JUMPI", "STOP", ":bad"] + A.panic(1))
+    spec = A.ContractSpec(f"IS{idx}", [setup, inv], filename=f"IS{idx}.sol")
+    out = A.run(A.make_ctx(spec, funsigs=[inv.sig], overrides=dict(invariant_depth=rng.choice([1, 2])), others=[target]))
+    res["counters"]["evaluations"] += 1
+    res["counters"]["invariant_target_stuck_cases"] += 1
+    if out.exception or not out.results:
+        res["counters"]["invariant_target_stuck_no_result"] += 1
+        return
+    r = out.results[0]
+    ws = out.all_logs() if hasattr(out, "all_logs") else [m for _, m in out.logs]
+    reported = [w for w in ws if "nsupported" in w or "incomplete" in w or "not been fully explored" in w or "Encountered" in w or "stuck" in w.lower()]
+    res["distinct"].append(f"inv-target-stuck:{idx}")
+    res["counters"]["invariant_cut_events_possible"] += 1
+    res["counters"]["unsupported_feature_tests"] += 1
+    if reported:
+        res["counters"]["warnings_captured"] += 1
+    if r.exitcode == 0 and not reported:
+        res["violations"].append(dict(what="invariant test: clean PASS with no warning although a target call stopped on an unsupported opcode (its post-state was dropped silently)",
+                                      key="silent-cut:invariant-target-stuck" + ("-nested" if nested else ""), index=idx, mode="inv-target-stuck", nested=nested, exitcode=r.exitcode, logs=ws[:4]))
+
+
 def worker(task):
     _imports()
     kind, lo, hi, seed = task
@@ -362,6 +404,8 @@ def worker(task):
             case_width_frontier(seed, idx, res)
         elif kind == "invloop":
             case_invariant_own_loop(seed, idx, res)
+        elif kind == "invstuck":
+            case_invariant_target_stuck(seed, idx, res)
         else:
             case_two_contracts(seed, idx, res)
     return res
@@ -377,7 +421,7 @@ def main():
     if run.replay:
         w = json.load(open(run.replay))["witness"]
         res = new_result()
-        {"regular": case_regular, "invariant": case_invariant, "setup-loop": case_setup_loop, "setup-stuck": case_setup_stuck, "width-frontier": case_width_frontier, "inv-own-loop": case_invariant_own_loop}.get(w.get("mode"), case_two_contracts)(run.seed, w["index"], res)
+        {"regular": case_regular, "invariant": case_invariant, "setup-loop": case_setup_loop, "setup-stuck": case_setup_stuck, "width-frontier": case_width_frontier, "inv-own-loop": case_invariant_own_loop, "inv-target-stuck": case_invariant_target_stuck}.get(w.get("mode"), case_two_contracts)(run.seed, w["index"], res)
         run.merge(res)
         run.finish()
     tasks = []
@@ -390,6 +434,7 @@ def main():
     tasks += [("setupstuck", i, i + 2, run.seed) for i in range(0, run.n(4, 20), 2)]
     tasks += [("widthfrontier", i, i + 2, run.seed) for i in range(0, run.n(4, 40), 2)]
     tasks += [("invloop", i, i + 2, run.seed) for i in range(0, run.n(6, 60), 2)]
+    tasks += [("invstuck", i, i + 2, run.seed) for i in range(0, run.n(6, 40), 2)]
     run_pool(run, worker, tasks, soft_timeout=900)
     run.require("tests", 150)
     run.require("cut_events_possible", 30)
